@@ -687,7 +687,7 @@ func c13RunB(o *out, input string) {
 // ---------- C13S ----------
 
 var c13Kinds = []string{"http-json", "http-json-gzip", "http-proto", "http-up-gzip", "http-up", "http-down",
-	"grpc", "grpc-gzip", "grpc-bidi", "grpc-bidi-gzip", "grpc-web", "blob-get", "blob-put", "grpc-cancel", "proxy-unary", "proxy-json", "http-path", "proxy-bidi", "proxy-bidi-fail"}
+	"grpc", "grpc-gzip", "grpc-bidi", "grpc-bidi-gzip", "grpc-web", "blob-get", "blob-put", "grpc-cancel", "proxy-unary", "proxy-json", "http-path", "proxy-bidi", "proxy-bidi-fail", "proxy-bidi-gzip"}
 
 func (e *c13Env) post(path, ct, accept string, body []byte, gz bool) ([]byte, int, error) {
 	if gz {
@@ -825,6 +825,47 @@ func (e *c13Env) one(kind, id string, r *rng) string {
 			return fmt.Sprintf("%s id=%s err %v", kind, id, err)
 		}
 		return diff(out.Text, t)
+	case "proxy-bidi-gzip":
+		// a proxied bidi stream with per-message gzip in which the client keeps sending while replies
+		// come back: receiving and sending overlap on one stream (pump goroutine and reply loop)
+		pe := c13ProxySetup()
+		ctx, cancel := context.WithTimeout(context.Background(), 20*time.Second)
+		defer cancel()
+		cs, err := pe.lb.conn.NewStream(ctx, &grpc.StreamDesc{ClientStreams: true, ServerStreams: true}, "/c13p.Svc/Bi", grpc.UseCompressor("gzip"))
+		if err != nil {
+			return fmt.Sprintf("%s id=%s err %v", kind, id, err)
+		}
+		k := 3 + r.intn(5)
+		texts := make([]string, k)
+		for i := range texts {
+			texts[i] = c13Text(fmt.Sprintf("%s.%d", id, i), c13Size(r)%4000)
+		}
+		sendErr := make(chan error, 1)
+		go func() {
+			for _, ti := range texts {
+				if err := cs.SendMsg(&testpb.Message{Text: ti}); err != nil {
+					sendErr <- err
+					return
+				}
+			}
+			sendErr <- cs.CloseSend()
+		}()
+		for i := 0; i < k; i++ {
+			out := &testpb.Message{}
+			if err := cs.RecvMsg(out); err != nil {
+				return fmt.Sprintf("%s id=%s recv %d err %v", kind, id, i, err)
+			}
+			if d := diff(out.Text, texts[i]); d != "" {
+				return d
+			}
+		}
+		if err := cs.RecvMsg(&testpb.Message{}); err != io.EOF {
+			return fmt.Sprintf("%s id=%s end err %v", kind, id, err)
+		}
+		if err := <-sendErr; err != nil {
+			return fmt.Sprintf("%s id=%s send err %v", kind, id, err)
+		}
+		return ""
 	case "proxy-bidi", "proxy-bidi-fail":
 		// a proxied bidi stream; in the failing variant the backend ends the call with its own status
 		// while the client is still sending: the client must be told that status
